@@ -33,6 +33,35 @@ use swc_ecma_ast::{
 };
 type Res<T> = Result<T, Box<DiagnosticInformation>>;
 
+/// Does a type refer to the named type `name` anywhere?
+fn mentions_ref(rt: &Runtype, name: &RuntypeUUID) -> bool {
+    match &rt.kind {
+        RuntypeKind::Ref(r) => r == name,
+        RuntypeKind::StNot(it) | RuntypeKind::Array(it) | RuntypeKind::Set(it) => {
+            mentions_ref(it, name)
+        }
+        RuntypeKind::AnyOf(vs) | RuntypeKind::AllOf(vs) => vs.iter().any(|it| mentions_ref(it, name)),
+        RuntypeKind::Map(k, v) => mentions_ref(k, name) || mentions_ref(v, name),
+        RuntypeKind::Tuple {
+            prefix_items,
+            items,
+        } => {
+            prefix_items.iter().any(|it| mentions_ref(it, name))
+                || items.as_ref().is_some_and(|it| mentions_ref(it, name))
+        }
+        RuntypeKind::Object {
+            vs,
+            indexed_properties,
+        } => {
+            vs.values().any(|it| mentions_ref(it.inner(), name))
+                || indexed_properties.as_ref().is_some_and(|it| {
+                    mentions_ref(&it.key, name) || mentions_ref(it.value.inner(), name)
+                })
+        }
+        _ => false,
+    }
+}
+
 /// Does a materialised semantic type still contain a negation (StNot)? Such a type has no runtime validator.
 fn contains_negation(rt: &Runtype) -> bool {
     match &rt.kind {
@@ -3060,26 +3089,43 @@ impl<'a, R: FileManager> FrontendCtx<'a, R> {
         })? {
             return Ok(Runtype::never());
         }
-        let (head, tail) = semtype_to_runtypes(
-            ctx,
-            &access_st,
-            // TODO: do we need this?
-            &RuntypeUUID {
-                ty: RuntypeName::Address(TypeAddress {
-                    file: anchor.f.clone(),
-                    name: "AnyName".into(),
-                }),
-                type_arguments: vec![],
-            },
-            &mut self.counter,
-        )
-        .map_err(|any| {
-            self.box_error(anchor, DiagnosticInfoMessage::AnyhowError(any.to_string()))
-        })?;
+        let placeholder = RuntypeUUID {
+            ty: RuntypeName::Address(TypeAddress {
+                file: anchor.f.clone(),
+                name: "AnyName".into(),
+            }),
+            type_arguments: vec![],
+        };
+        let mut probe_counter = self.counter;
+        let (head, tail) = semtype_to_runtypes(ctx, &access_st, &placeholder, &mut probe_counter)
+            .map_err(|any| {
+                self.box_error(anchor, DiagnosticInfoMessage::AnyhowError(any.to_string()))
+            })?;
+        let refers_to_itself = mentions_ref(&head.schema, &placeholder)
+            || tail.iter().any(|t| mentions_ref(&t.schema, &placeholder));
+        if !refers_to_itself {
+            self.counter = probe_counter;
+            for t in tail {
+                self.insert_definition(t.name.clone(), t.schema)?;
+            }
+            return Ok(head.schema);
+        }
+        // The computed type is recursive at its root (e.g. Exclude<T, string> for type T = [number, ...T[]]):
+        // the placeholder name would never be defined. Materialise it again under a fresh generated name
+        // and define that name.
+        let name = RuntypeUUID {
+            ty: RuntypeName::SemtypeRecursiveGenerated(self.counter),
+            type_arguments: vec![],
+        };
+        self.counter += 1;
+        let (head, tail) = semtype_to_runtypes(ctx, &access_st, &name, &mut self.counter)
+            .map_err(|any| {
+                self.box_error(anchor, DiagnosticInfoMessage::AnyhowError(any.to_string()))
+            })?;
         for t in tail {
             self.insert_definition(t.name.clone(), t.schema)?;
         }
-        Ok(head.schema)
+        self.insert_definition(name, head.schema)
     }
 
     fn convert_indexed_access_syntatically(
